@@ -17,7 +17,10 @@ TIMESTAMPS = ["2020-08-19T08:38:00Z", "1985-04-12T23:20:50.52Z", "1996-12-19T16:
               # leap seconds, lower-case / space separators, extreme years and offsets
               "2016-12-31T23:59:60Z", "2016-12-31T23:59:60.25Z", "1990-06-30T23:59:60+00:00", "2015-06-30T19:59:60-04:00",
               "2020-08-19t08:38:00z", "0001-01-01T00:00:00Z", "9999-12-31T23:59:59.999999999Z", "2020-02-29T23:59:59-23:59",
-              "2020-08-19T08:38:00.000000001+00:01", "2020-08-19T08:38:00.100Z", "2020-08-19T08:38:00.000Z"]
+              "2020-08-19T08:38:00.000000001+00:01", "2020-08-19T08:38:00.100Z", "2020-08-19T08:38:00.000Z",
+              # instants whose UTC form leaves the four-digit years (the offset carries them over the edge)
+              "9999-12-31T23:59:59-01:00", "9999-12-31T23:30:00.5-00:30", "0000-01-01T00:00:00+01:00", "0000-01-01T00:29:59.9+00:30",
+              "9999-12-31T22:59:59+01:00", "0000-01-01T01:00:00-01:00"]
 BAD_TIMESTAMPS = ["2020-08-19", "yesterday", "2020-13-01T00:00:00Z", "", "2020-08-19T08:38:00"]
 
 
